@@ -2265,6 +2265,14 @@ def compute_hash(text: str) -> str:
     return hash_digest(text.encode("utf-8"))
 
 
+def data_file_matches(metastore: MetadataStore, data_file: str, data_bytes: bytes) -> bool:
+    """Does the cache already hold exactly these bytes as the given data file?"""
+    try:
+        return metastore.read(data_file) == data_bytes
+    except OSError:
+        return False
+
+
 def write_cache(
     id: str,
     path: str,
@@ -2348,8 +2356,15 @@ def write_cache(
     # Note that for Bazel we don't record the data file's mtime.
     if old_interface_hash == interface_hash:
         manager.trace(f"Interface for {id} is unchanged")
+        # The old hash comes from a meta file that may have been abandoned since (for
+        # example because we were killed after writing a new data file but before
+        # writing its meta file), so the write is only skipped if the data file that
+        # is there is really the one this hash describes.
+        write_data = not data_file_matches(metastore, data_file, data_bytes)
     else:
         manager.trace(f"Interface for {id} has changed")
+        write_data = True
+    if write_data:
         if not metastore.write(data_file, data_bytes):
             # Most likely the error is the replace() call
             # (see https://github.com/python/mypy/issues/3215).
